@@ -2,6 +2,7 @@
 From Coq Require Import ZArith List Field Ring Lia Arith Znumtheory.
 From BL Require Import Base.Ops Base.Laws Model.Solver Proofs.Sums.
 Import ListNotations.
+Set Default Proof Using "All".
 
 Section Dft.
 Variable O : Ops.
@@ -108,11 +109,11 @@ Lemma ortho n k : n <> 0%nat ->
   = if Z.eqb (k mod Z.of_nat n) 0 then ofN n else 0.
 Proof.
   intros Hn.
-  rewrite (csum_map_ext O (fun i => root n (k * Z.of_nat i)) (cpow (root n k))) by (intros; apply root_mul_nat).
+  rewrite (csum_map_ext O L (fun i => root n (k * Z.of_nat i)) (cpow (root n k))) by (intros; apply root_mul_nat).
   destruct (Z.eqb (k mod Z.of_nat n) 0) eqn:E.
   - apply Z.eqb_eq in E.
     assert (Hw : root n k = 1). { apply root_one_iff; [exact Hn|]. apply Z.mod_divide; [lia|exact E]. }
-    rewrite Hw. rewrite (csum_map_ext O (cpow 1) (fun _ => 1)) by (intros; apply cpow_one).
+    rewrite Hw. rewrite (csum_map_ext O L (cpow 1) (fun _ => 1)) by (intros; apply cpow_one).
     rewrite (csum_map_const O L), seq_length. ring.
   - apply Z.eqb_neq in E.
     assert (Hw : root n k <> 1).
